@@ -311,7 +311,7 @@ class C17(CompSpec):
 class C18(CompSpec):
     prop = "C18"
     rule = (
-        "(a) every subset of the 9 optional SlurmConfig fields (512, exhaustive) with random values/account/walltime/prefix: the script written by HpcManager.submit(dry_run) is parsed and "
+        "(a) every subset of the 9 optional SlurmConfig fields (512, exhaustive) with random values/account/walltime/prefix, the batch's group being one of 1-3 groups with different settings at a random position: the script written by HpcManager.submit(dry_run) is parsed and "
         "its #SBATCH set compared with an independent expectation table, last line = srun <run script>; (b) random squeue listings over the whole SLURM state vocabulary (12 live, 12 "
         "terminal states, unknown tokens, absent ids, foreign ids, hostile whitespace / blank lines) served by a scripted squeue executable to a real HpcSubmitter.run() round: an id may "
         "leave the persisted active set only if absent or terminal; (c) 12 kinds of sbatch reply (valid, decorated, without id, garbage, empty, non-zero) served by a scripted sbatch to a "
